@@ -129,8 +129,8 @@ func c09sampler(warm bool) *c09scen {
 	log := func(m string) []c09call { return cat(u(0, m), en, ck, wr) }
 	msgs := []string{"m", "n", "o"}
 	return &c09scen{cleanup: func() {}, ops: []c09op{
-		{name: "Info(same)", run: func(g, k int) { l.Info("m") }, units: log("Logger.Info"), mut: true},
-		{name: "Info(varied)", run: func(g, k int) { l.Info(msgs[(g+k)%3]) }, units: log("Logger.Info"), mut: true},
+		{name: "Info-same", run: func(g, k int) { l.Info("m") }, units: log("Logger.Info"), mut: true},
+		{name: "Info-varied", run: func(g, k int) { l.Info(msgs[(g+k)%3]) }, units: log("Logger.Info"), mut: true},
 		{name: "Warn", run: func(g, k int) { l.Warn("m") }, units: log("Logger.Warn"), mut: true},
 		{name: "Debug", run: func(g, k int) { l.Debug("m") }, units: log("Logger.Debug"), mut: true},
 		{name: "With.Info", run: func(g, k int) { l.With(zap.Int("k", k)).Info("m") },
@@ -204,7 +204,7 @@ func c09io(warm bool) *c09scen {
 	log := func(m string) []c09call { return cat(u(0, m), en, ck, wr) }
 	return &c09scen{cleanup: func() { _ = bws.Stop() }, ops: []c09op{
 		{name: "Info", run: func(g, k int) { l.Info("m", zap.Int("g", g), zap.String("s", "abcdefghijklmnopqrstuvwxyz")) }, units: log("Logger.Info"), mut: true},
-		{name: "Error(syncs)", run: func(g, k int) { l.Error("e") }, units: cat(log("Logger.Error"), sy), mut: true},
+		{name: "Error+sync", run: func(g, k int) { l.Error("e") }, units: cat(log("Logger.Error"), sy), mut: true},
 		{name: "Debug", run: func(g, k int) { l.Debug("d") }, units: log("Logger.Debug"), mut: true},
 		{name: "With.Info", run: func(g, k int) { l.With(zap.Int("k", k)).Info("w") }, units: cat(u(0, "Logger.With"), u(1, "multiCore.With"), u(2, "ioCore.With"), u(5, "ioCore.With"), u(8, "Pool.Get"), u(3, "lockedWriteSyncer.Write"), u(4, "BufferedWriteSyncer.Write"), u(6, "lockedWriteSyncer.Write"), u(8, "Pool.Put")), mut: true},
 		{name: "WithLazy.Info", run: func(g, k int) { l.WithLazy(zap.Int("k", k)).Info("wl") }, units: cat(u(0, "Logger.WithLazy"), en, u(1, "multiCore.With"), u(2, "ioCore.With"), u(5, "ioCore.With"), u(3, "lockedWriteSyncer.Write"), u(4, "BufferedWriteSyncer.Write"), u(6, "lockedWriteSyncer.Write")), mut: true},
@@ -233,8 +233,8 @@ func c09globals(warm bool) *c09scen {
 	return &c09scen{cleanup: func() { zap.ReplaceGlobals(zap.NewNop()) }, ops: []c09op{
 		{name: "L.Info", run: func(g, k int) { zap.L().Info("m") }, units: cat(u(0, "globals.L"), u(1, "Logger.Info"), wr), mut: true},
 		{name: "S.Infow", run: func(g, k int) { zap.S().Infow("m", "k", k) }, units: cat(u(0, "globals.S"), u(1, "Logger.Check"), wr), mut: true},
-		{name: "Replace(one)", run: func(g, k int) { zap.ReplaceGlobals(l1) }, units: cat(u(0, "globals.ReplaceGlobals"), u(1, "Logger.Sugar")), mut: true},
-		{name: "Replace(two)", run: func(g, k int) { zap.ReplaceGlobals(l2) }, units: cat(u(0, "globals.ReplaceGlobals"), u(2, "Logger.Sugar")), mut: true},
+		{name: "Replace-one", run: func(g, k int) { zap.ReplaceGlobals(l1) }, units: cat(u(0, "globals.ReplaceGlobals"), u(1, "Logger.Sugar")), mut: true},
+		{name: "Replace-two", run: func(g, k int) { zap.ReplaceGlobals(l2) }, units: cat(u(0, "globals.ReplaceGlobals"), u(2, "Logger.Sugar")), mut: true},
 		{name: "Replace+undo", run: func(g, k int) { undo := zap.ReplaceGlobals(l2); zap.L().Info("in"); undo() }, units: cat(u(0, "globals.ReplaceGlobals", "globals.L"), u(2, "Logger.Info"), wr, u(0, "globals.ReplaceGlobals")), mut: true},
 		{name: "L.With.Info", run: func(g, k int) { zap.L().With(zap.Int("k", k)).Info("w") }, units: cat(u(0, "globals.L"), u(1, "Logger.With"), u(3, "contextObserver.With"), u(4, "ObservedLogs.add")), mut: true},
 		{name: "L.Level", run: func(g, k int) { _ = zap.L().Level(); _ = zap.S().Level() }, units: cat(u(0, "globals.L", "globals.S"), u(1, "Logger.Level"))},
@@ -256,7 +256,7 @@ func c09slog(warm bool) *c09scen {
 	ctx := context.Background()
 	return &c09scen{cleanup: func() {}, ops: []c09op{
 		{name: "Info", run: func(g, k int) { sl.Info("m", "g", g, "k", k) }, units: hd, mut: true},
-		{name: "Error(stack)", run: func(g, k int) { sl.Error("e", slog.Group("grp", slog.Int("a", 1))) }, units: hd, mut: true},
+		{name: "Error+stack", run: func(g, k int) { sl.Error("e", slog.Group("grp", slog.Int("a", 1))) }, units: hd, mut: true},
 		{name: "Debug", run: func(g, k int) { sl.Debug("d") }, units: cat(u(0, "Handler.Enabled"), u(1, "contextObserver.Enabled"), u(3, "AtomicLevel.Enabled"))},
 		{name: "With.Info", run: func(g, k int) { sl.With("a", k).Info("w") }, units: cat(u(0, "Handler.WithAttrs"), u(1, "contextObserver.With"), u(3, "AtomicLevel.Enabled"), u(2, "ObservedLogs.add")), mut: true},
 		{name: "WithGroup.Info", run: func(g, k int) { sl.WithGroup("g").With("a", 1).Info("wg", "b", 2) }, units: cat(u(0, "Handler.WithGroup"), u(1, "contextObserver.With"), u(3, "AtomicLevel.Enabled"), u(2, "ObservedLogs.add")), mut: true},
@@ -282,7 +282,7 @@ func c09sugar(warm bool) *c09scen {
 		{name: "Infof", run: func(g, k int) { s.Infof("m %d %d", g, k) }, units: log("SugaredLogger.Infof"), mut: true},
 		{name: "Infow", run: func(g, k int) { s.Infow("m", "g", g, "k", k) }, units: log("SugaredLogger.Infow"), mut: true},
 		{name: "Infoln", run: func(g, k int) { s.Infoln("m", g, k) }, units: log("SugaredLogger.Infoln"), mut: true},
-		{name: "Errorw(dangling)", run: func(g, k int) { s.Errorw("e", "dangling") }, units: cat(log("SugaredLogger.Errorw"), ck), mut: true},
+		{name: "Errorw-dangling", run: func(g, k int) { s.Errorw("e", "dangling") }, units: cat(log("SugaredLogger.Errorw"), ck), mut: true},
 		{name: "Debugw", run: func(g, k int) { s.Debugw("d", "k", k) }, units: log("SugaredLogger.Debugw"), mut: true},
 		{name: "Panicw", run: func(g, k int) { s.Panicw("p", "k", k) }, units: log("SugaredLogger.Panicw"), mut: true, mayPanic: true},
 		{name: "DPanicf", run: func(g, k int) { s.DPanicf("dp %d", k) }, units: log("SugaredLogger.DPanicf"), mut: true},
